@@ -54,6 +54,19 @@ def variants():
             for prop in v["props"]:
                 vs.append({"name": v["name"], "kind": v["kind"], "patch": os.path.join(pdir, v["patch"]), "prop": prop,
                            "expect": v.get("expect", {}).get(prop, v.get("expect_any", [])) if isinstance(v.get("expect"), dict) else v.get("expect", [])})
+    # behaviour-preserving refactorings written by independent sub-agents (DESIGN §13): each must stay silent for the
+    # property it was written for and for every property whose check it once made fail
+    rdir = os.path.join(SELF, "refactors")
+    alarms = {}
+    ap = os.path.join(SELF, "refactor_alarms.json")
+    if os.path.exists(ap):
+        alarms = json.load(open(ap))
+    for pd in sorted(os.listdir(rdir)) if os.path.isdir(rdir) else []:
+        for f in sorted(os.listdir(os.path.join(rdir, pd))):
+            if f.endswith(".diff"):
+                name = f"{pd}_{f[:-5]}"
+                for prop in sorted({pd} | set(alarms.get(name, []))):
+                    vs.append({"name": f"refactor-{name}", "kind": "must-stay-silent", "patch": os.path.join(rdir, pd, f), "prop": prop, "expect": []})
     sdir = os.path.join(VERIF, "seeded")
     for d in sorted(os.listdir(sdir)) if os.path.isdir(sdir) else []:
         mp = os.path.join(sdir, d, "meta.json")
